@@ -213,6 +213,7 @@ def twin_statements(rng, tree, relpath):
     mods = sorted({module_of(p) for p, v in tree.items() if v is None or p.endswith(".py")})
     pkg = ".".join(importer.split(".")[:depth])
     local = [m[len(pkg) + 1:] for m in mods if m.startswith(pkg + ".") and "." not in m[len(pkg) + 1:] and m != importer]
+    local = [x for x in local if re.fullmatch(r"[A-Za-z_]\w*", x)]
     if not local:
         return []
     x = rng.choice(local)
